@@ -30,7 +30,21 @@ import (
 
 func init() {
 	streams["filter"] = filterStream
-	replayers["filter"] = func(r *Run, f []string) string { return replayCallLayer(f) }
+	replayers["filter"] = func(r *Run, f []string) string {
+		if len(f) >= 3 && f[0] == "filter" {
+			name := unhexField(f[1])
+			for _, jn := range jsonFilterNames {
+				if name == jn { // with the json oracle (stream_filter_json.go)
+					args := make([]*V, 0, len(f))
+					for _, a := range f[3:] {
+						args = append(args, ParseV(a))
+					}
+					return jsonFilterCase(r, strings.Join(f, " "), name, ParseV(f[2]), args, NewRNG(r.Seed, "filter-json-replay"))
+				}
+			}
+		}
+		return replayCallLayer(f)
+	}
 	streams["conv"] = convStream
 	replayers["conv"] = func(r *Run, f []string) string { return replayCallLayer(f) }
 }
@@ -257,6 +271,8 @@ func filterStream(r *Run) {
 		}
 		emit(name, recv, args...)
 	}
+	// json, inspect, type (stream_filter_json.go)
+	jsonFilterCases(r, NewRNG(r.Seed, "filter-json"))
 }
 
 // randomNumberV: a number in some Go representation, or a string spelling one.
